@@ -29,6 +29,7 @@ var repo = func() string {
 	}
 	return "/repo"
 }()
+
 const modPath = "github.com/compose-spec/compose-go/v2"
 
 type HarnessSpec struct {
@@ -290,6 +291,11 @@ func cmdCheck(args []string) int {
 
 	ev := Evidence{PropertyID: id, Tier: *tier, Seed: seed, Level: "model_checking", Coverage: map[string]interface{}{}, Assumptions: spec.Assumptions}
 	evPath := filepath.Join(verifDir(), "evidence", id+".json")
+	if os.Getenv("VERIF_REPO") != "" {
+		// a run against a snapshot or a seeded change is not evidence about /repo
+		evPath = filepath.Join(os.TempDir(), "symx-evidence-"+id+"-"+strconv.Itoa(os.Getpid())+".json")
+		defer os.Remove(evPath)
+	}
 	writeEv := func() {
 		ev.WallS = time.Since(t0).Seconds()
 		b, _ := json.MarshalIndent(ev, "", " ")
